@@ -314,21 +314,17 @@ Theorem C12_save_type_tail_len_refuted : exists (B : nat) (old : entry N) (new :
 Proof. exact IdenticalFilesProofs.save_type_tail_len_refuted. Qed.
 Print Assumptions C12_save_type_tail_len_refuted.
 
-(* the two dependences on the old entry that asn1c has: -flink-skeletons keeps whatever is there (documented:
-   "Retaining local ..."); the files rewritten in place follow a symbolic link (finding C12-inplace-file-through-symlink) *)
+(* the one dependence on the old entry that asn1c has: -flink-skeletons keeps whatever is there (documented:
+   "Retaining local ..."); the files rewritten in place replace whatever is there, a symbolic link included
+   (C12-inplace-file-through-symlink, repaired in asn1c_open_file) *)
 Theorem C12_link_skel_retains : forall (A : Type) (old : entry A) (path : nat), old <> Absent A -> link_skel A old path = old.
 Proof. exact IdenticalFilesProofs.link_skel_retains. Qed.
 Print Assumptions C12_link_skel_retains.
 
-Theorem C12_write_inplace_regular_is_fresh : forall (A : Type) (old : entry A) (new : list A),
-  (forall t, old <> Link A t) -> write_inplace A old new = (Reg A new, None).
-Proof. exact IdenticalFilesProofs.write_inplace_regular_is_fresh. Qed.
-Print Assumptions C12_write_inplace_regular_is_fresh.
-
-Theorem C12_write_inplace_follows_link : forall (A : Type) (t : nat) (new : list A),
-  write_inplace A (Link A t) new = (Link A t, Some new).
-Proof. exact IdenticalFilesProofs.write_inplace_follows_link. Qed.
-Print Assumptions C12_write_inplace_follows_link.
+Theorem C12_write_inplace_is_fresh : forall (A : Type) (old : entry A) (new : list A),
+  write_inplace A old new = (Reg A new, None).
+Proof. exact IdenticalFilesProofs.write_inplace_is_fresh. Qed.
+Print Assumptions C12_write_inplace_is_fresh.
 
 Theorem C12_identical_examples :
   identical_N 4 [1;2;3;4;5;6;7;8;9]%N [1;2;3;4;5;6;7;8;9]%N = true /\
@@ -344,11 +340,11 @@ Print Assumptions C12_identical_examples.
 
 (* a whole run in the copy modes (the directory as a map path -> entry, the files written in asn1c's order, a path possibly
    more than once): every file the run writes is what a run into an EMPTY directory leaves there, whatever the directory
-   held — provided no symbolic link sits where a file is rewritten in place — and every other entry is left alone:
+   held (symbolic links included), and every other entry is left alone:
    the statement the oracle `oracle:outdir-state` evaluates on the C *)
 Theorem C12_run_dir_is_fresh : forall (A : Type) (eqb : A -> A -> bool),
   (forall x y, eqb x y = true <-> x = y) -> forall B : nat, B > 0 ->
-  forall (outs : list (nat * wop A)) (d : dir A), nolink A d outs ->
+  forall (outs : list (nat * wop A)) (d : dir A),
   forall q, In q (map fst outs) -> run_dir A eqb B d outs q = run_dir A eqb B (empty_dir A) outs q.
 Proof. exact IdenticalFilesProofs.run_dir_is_fresh. Qed.
 Print Assumptions C12_run_dir_is_fresh.
@@ -359,8 +355,3 @@ Theorem C12_run_dir_untouched : forall (A : Type) (eqb : A -> A -> bool) (B : na
 Proof. exact IdenticalFilesProofs.run_dir_untouched. Qed.
 Print Assumptions C12_run_dir_untouched.
 
-(* the side condition cannot be dropped (finding C12-inplace-file-through-symlink) *)
-Theorem C12_run_dir_link_refuted : exists (d : dir N) (outs : list (nat * wop N)) (q : nat),
-  In q (map fst outs) /\ run_dir N N.eqb 4096 d outs q <> run_dir N N.eqb 4096 (empty_dir N) outs q.
-Proof. exact IdenticalFilesProofs.run_dir_link_refuted. Qed.
-Print Assumptions C12_run_dir_link_refuted.
